@@ -1,2 +1,3 @@
 pub mod delta;
 pub mod lex;
+pub mod trees;
